@@ -191,6 +191,8 @@ func stripConv(v ssa.Value) ssa.Value {
 		switch x := v.(type) {
 		case *ssa.ChangeType:
 			v = x.X
+		case *ssa.ChangeInterface:
+			v = x.X
 		default:
 			return v
 		}
@@ -507,4 +509,87 @@ func withAnon(fn *ssa.Function) []*ssa.Function {
 		out = append(out, withAnon(a)...)
 	}
 	return out
+}
+
+// ---- single-assignment cells --------------------------------------------------------------------------------
+
+// singleStore returns the only value ever stored into local cell a (go/ssa spills variables captured by closures
+// and struct parameters into Allocs), or nil when the cell is assigned more than once (including from closures).
+func singleStore(a *ssa.Alloc) ssa.Value {
+	var val ssa.Value
+	n := 0
+	var scan func(addr ssa.Value, fn *ssa.Function)
+	scan = func(addr ssa.Value, fn *ssa.Function) {
+		refs := addr.Referrers()
+		if refs == nil {
+			n = 99
+			return
+		}
+		for _, ref := range *refs {
+			switch x := ref.(type) {
+			case *ssa.Store:
+				if x.Addr == addr {
+					n++
+					val = x.Val
+				}
+			case *ssa.MakeClosure:
+				cf, ok := x.Fn.(*ssa.Function)
+				if !ok {
+					n = 99
+					continue
+				}
+				for i, b := range x.Bindings {
+					if b == addr && i < len(cf.FreeVars) {
+						scan(cf.FreeVars[i], cf)
+					}
+				}
+			}
+		}
+	}
+	scan(a, a.Parent())
+	if n == 1 {
+		return val
+	}
+	return nil
+}
+
+// seeThrough resolves loads of single-assignment local cells to the value they hold.
+func seeThrough(v ssa.Value) ssa.Value {
+	for i := 0; i < 8; i++ {
+		u, ok := v.(*ssa.UnOp)
+		if !ok || u.Op != token.MUL {
+			return v
+		}
+		var cell *ssa.Alloc
+		switch x := u.X.(type) {
+		case *ssa.Alloc:
+			cell = x
+		case *ssa.FreeVar:
+			cell = rootAlloc(x)
+		}
+		if cell == nil {
+			return v
+		}
+		s := singleStore(cell)
+		if s == nil {
+			return v
+		}
+		v = s
+	}
+	return v
+}
+
+// logicalField is loadedField that sees through spilled struct values: for `*(&cell.f)` where cell is a local holding
+// exactly one struct value X it reports (X, f).
+func logicalField(v ssa.Value) (ssa.Value, *types.Var, bool) {
+	base, f, ok := loadedField(v)
+	if !ok {
+		return nil, nil, false
+	}
+	if a, isAlloc := base.(*ssa.Alloc); isAlloc {
+		if s := singleStore(a); s != nil {
+			return s, f, true
+		}
+	}
+	return seeThrough(base), f, true
 }
